@@ -49,8 +49,9 @@ ASSUMPTIONS = [
     "the gate's NonceCache is given a logical clock by replacing the module attribute vgi_rpc.http._proof.NonceCache "
     "during gate construction (no source edit); cases are skipped if that injection does not take effect",
     "nonce-cache capacity is kept above the history length (overflow eviction belongs to C23)",
-    "two spec-open points accept both readings: non-canonical trailing bits of the base64url MAC (ok | bad_mac) and a "
-    "nonce re-presented exactly skew seconds after it was remembered (replayed | ok)",
+    "spec-open points accept both readings: non-canonical trailing bits of the base64url MAC (ok | bad_mac); a nonce "
+    "re-presented exactly TTL seconds after it was remembered (replayed | ok); and, where the gate chooses its own "
+    "cache TTL, any retention between skew (literal §10) and 2*skew+1 (whole two-sided admissibility window)",
 ]
 SHARDS = {"quick": 4, "thorough": 16}
 TECHNIQUE = (
@@ -354,7 +355,8 @@ def steps_st(draw: Any, cfg: dict, max_steps: int) -> list[dict]:
     n = draw(st.integers(1, max_steps))
     steps: list[dict] = []
     for _ in range(n):
-        dt = draw(st.sampled_from(DT_CHOICES + [skew - 1, skew, skew + 1, 2 * skew]))
+        dt = draw(st.sampled_from(DT_CHOICES + [skew - 1, skew, skew + 1, 2 * skew, 2 * skew + 1, 2 * skew + 2,
+                                                3 * skew + 2]))
         if steps and draw(st.integers(0, 3)) == 0:
             # present an earlier value again, wall clock moved by the same or a nearby amount
             prev = steps[draw(st.integers(0, len(steps) - 1))]
@@ -558,7 +560,7 @@ def run_gate(case: dict) -> Outcome:
         out.skipped = True
         out.label("cache_clock_not_injected")
         return out
-    model = ref.NonceModel(case["skew"]) if case["cache"] else None
+    model = ref.NonceModel(case["skew"], 2 * case["skew"] + 1) if case["cache"] else None
     st_: dict = {"nt": False, "accepted": set()}
     mode = case["mode"]
     out.label(f"mode={mode}")
@@ -657,7 +659,7 @@ def run_e2e(case: dict) -> Outcome:
     if not baseline[0].startswith("401"):
         out.fail("e2e/require/absent_header_not_401", f"status {baseline[0]}")
         return out
-    model = ref.NonceModel(case["skew"]) if case["cache"] else None
+    model = ref.NonceModel(case["skew"], 2 * case["skew"] + 1) if case["cache"] else None
     st_: dict = {"nt": False, "accepted": set()}
     notes = []
     for step in case["steps"]:
